@@ -78,6 +78,26 @@ def render_hours(tbl, ind, ranges=False):
     """one directive per weekday, or (ranges) one per distinct interval list with day ranges ('mon - wed'),
     day lists ('mon - wed, fri') and wrap-around ranges ('sat - mon')"""
     out = []
+    # (corpus cases come back from JSON with lists in place of tuples)
+    tbl = [(wd, [(tuple(x[0]), tuple(x[1])) for x in ivs]) for wd, ivs in tbl]
+    if ranges == "overlap":
+        # the intervals that all working days share on one line (day list), the rest of each day on lines of its
+        # own: several lines name the same day and their intervals add up
+        merged = {}
+        for wd, ivs in tbl:
+            if ivs:
+                merged.setdefault(wd, [])
+                merged[wd] += [x for x in ivs if x not in merged[wd]]
+        days = sorted(merged)
+        common = [x for x in merged[days[0]] if all(x in merged[d] for d in days)] if len(days) > 1 else []
+        fmt = lambda ivs: ", ".join(f"{a:02d}:{b:02d} - {c:02d}:{d:02d}" for (a, b), (c, d) in ivs)
+        if common:
+            out.append(f"{ind}workinghours {', '.join(DAYN[d] for d in days)} {fmt(common)}")
+        for d in days:
+            rest = [x for x in merged[d] if x not in common]
+            for x in rest:
+                out.append(f"{ind}workinghours {DAYN[d]} {fmt([x])}")
+        return out
     if not ranges:
         for wd, ivs in tbl:
             if not ivs:
@@ -160,6 +180,9 @@ def render(ap, rename=None, extra_tail=""):
         hdr.append(f'timeformat "{ap["timeformat"]}"')
     for s in ap.get("scenario_lines", []):
         hdr.append(s)
+    if ap.get("phours") is not None:
+        # working hours declared for the whole project: the calendar of resources without hours / shift of their own
+        hdr += [x.strip() for x in render_hours(ap["phours"], "", ap.get("dayranges"))]
     L.append(f'project prj "P" {fmt_date(ap["start"])} +{durn}{durk} {{ ' + " ".join(hdr) + " }")
     for (a, b) in ap.get("vac", []):
         L.append(f'vacation "v" {fmt_date(a)}' + (f" - {fmt_date(b)}" if b is not None else ""))
@@ -307,6 +330,8 @@ def working(ap, rnode, t):
         wd, m = local_parts(t, rnode.get("tz"))
         return hours_spec(tbl, wd, m)
     wd, m = (t // 86400 + 3) % 7, (t % 86400) // 60
+    if ap.get("phours") is not None:
+        return hours_spec(ap["phours"], wd, m)          # the project's own hours, on the project clock
     return wd < 5 and 9 * 60 <= m < 17 * 60
 
 
@@ -316,6 +341,8 @@ def aligned(ap):
     if ap["start"] % G:
         return False
     tabs = list(ap.get("shifts", {}).values()) + [n["hours"] for _, n in walk(ap["resources"]) if n.get("hours") is not None]
+    if ap.get("phours") is not None:
+        tabs.append(ap["phours"])
     for tbl in tabs:
         for _, l in tbl:
             for (a, b), (c, d) in l:
@@ -432,6 +459,8 @@ def encode_core(ap, obs_end):
             # the calendar is computed INSIDE the Coq model (Model/Calendar.v) from the hours table and
             # the blocked intervals
             tbl = ap["shifts"][n["shift"]] if n.get("shift") else n.get("hours")
+            if tbl is None:
+                tbl = ap.get("phours")          # hours declared in the project header
             offs = [day_interval(a, b) for a, b in ap.get("vac", []) + ap.get("gleaves", [])]
             offs += [day_interval(a, b) for a, b, _k in n.get("leaves", [])]
             offs += [(a, a + mins * 60) for a, mins, _t in n.get("bookings", [])]
